@@ -87,6 +87,11 @@ def run(ctx):
     if ctx.anchor("R2", "fn resolve_predicate_data_len", f):
         E.has_call(ctx, "R2", "len:slot-by-get", prog, f, r"slice::<impl \[T\]>::get$", ["^predicate_data$", "^slot_ix$"])
     # ---- R3 ---------------------------------------------------------------
+    # the sign crate (the op's sibling) recovers a key exactly where secp256k1 does (C19 R6): the VM op and
+    # essential_sign::recover_* then agree on which signatures yield a key
+    if not getattr(ctx, "_src", None):
+        from . import C19 as C19_
+        C19_.acceptance_tables(ctx, prog, "R3")
     rec = prog.fn("essential_vm::crypto::recover_secp256k1")
     enc = prog.fn("essential_sign::encode::public_key")
     if ctx.anchor("R3", "fn recover_secp256k1 / sign::encode::public_key", rec and enc):
